@@ -280,7 +280,7 @@ let run_case (fuel : int) (sx : sexp) : String.t =
         cData = hexb inp;
         cG = List.map rule_of rules;
         cE = env_of_blocks (List.map block_of blocks) } in
-      if !ref_mode then show_ref cfg id (rparse cfg (nat_of_int fuel))
+      if !ref_mode then show_ref cfg id (rparse (rd cfg) (nat_of_int fuel))
       else show_outcome id (parse cfg (nat_of_int fuel))
   | _ -> failwith "bad case"
 
